@@ -38,8 +38,9 @@ SPEC = {
         "host": "facebook.com",
         "alt_hosts": ["m.facebook.com", "fb.me", "facebook.fr", "fr-fr.facebook.com"],
         "path_hosts": [("facebook.com", None, plain)],
-        "vocab": ["watch", "videos", "photos", "photo.php", "photo", "posts", "permalink", "permalink.php", "story.php", "groups",
-                  "profile.php", "people", "l.php", "123", "1234567890", "nom", "a.456", "12345678x", ""],
+        "vocab": ["watch", "videos", "photos", "photo.php", "photo", "posts", "permalink", "permalink.php", "groups",
+                  "profile.php", "people", "123", "1234567890", "nom", "a.456", "12345678x", ""],
+        "extra_vocab": ["story.php", "l.php"],        # only in the host / relative / random sections
         "decos": ["", "?v=1&fbid=2&set=a.3&story_fbid=4&id=5"],
         "qroutes": ["facebook.com/watch", "facebook.com/watch/", "facebook.com/nom/watch", "facebook.com/photo.php", "facebook.com/photo",
                     "facebook.com/photo/", "facebook.com/nom/photo.php", "facebook.com/permalink.php", "facebook.com/story.php",
@@ -53,8 +54,9 @@ SPEC = {
         "host": "youtube.com",
         "alt_hosts": ["youtu.be", "m.youtube.com", "youtube.fr", "youtube.googleapis.com", "yt.be"],
         "path_hosts": [("youtube.com", None, plain), ("youtu.be", 3, plain)],
-        "vocab": ["watch", "embed", "v", "video", "shorts", "channel", "user", "c", "playlist", "feed", "@handle", "@", "nom",
+        "vocab": ["watch", "embed", "v", "shorts", "channel", "user", "c", "feed", "@handle", "@", "nom",
                   ID11, ID13, "abc", UC, ""],
+        "extra_vocab": ["video", "playlist"],
         "decos": ["", "?v=" + ID11 + "&list=PL1"],
         "qroutes": ["youtube.com/watch", "youtube.com/watch/", "youtube.com/", "youtube.com", "youtube.com/embed/" + ID11, "youtube.com/nom",
                     "youtube.com/playlist", "youtube.com/signin", "youtube.com/attribution_link", "youtube.com/c/nom",
@@ -68,8 +70,9 @@ SPEC = {
         "host": "twitter.com",
         "alt_hosts": ["x.com", "mobile.twitter.com"],
         "path_hosts": [("twitter.com", None, plain), ("twitter.com", 3, tw_frag_slash), ("twitter.com", 3, tw_frag), ("x.com", 2, tw_frag_nopath)],
-        "vocab": ["i", "lists", "status", "statuses", "home", "explore", "search", "hashtag", "settings", "messages", "notifications",
-                  "@User", "user", "1234567890", "web", "photo", "intent", ""],
+        "vocab": ["i", "lists", "status", "home", "explore", "search", "hashtag", "settings",
+                  "@User", "user", "1234567890", "web", "photo", ""],
+        "extra_vocab": ["statuses", "messages", "notifications", "intent"],
         "decos": ["", "?s=20"],
         "qroutes": ["twitter.com/", "twitter.com", "twitter.com/i", "twitter.com/user/status/1", "twitter.com/search", "twitter.com/i/lists/1"],
         "qitems": ["s=20", "lang=fr", "q=%23x", "ref_src=twsrc%5Etfw", "t", "id=1"],
@@ -79,8 +82,9 @@ SPEC = {
         "host": "instagram.com",
         "alt_hosts": ["www.instagram.com", "instagram.fr"],
         "path_hosts": [("instagram.com", None, plain)],
-        "vocab": ["p", "reel", "reels", "videos", "tv", "explore", "stories", "accounts", "direct", "user.name", "us-er_1",
-                  "BxKRx5CHn5i", "bad!code", "@x", "a b", "é", ""],
+        "vocab": ["p", "reel", "reels", "videos", "tv", "explore", "stories", "accounts", "user.name", "us-er_1",
+                  "BxKRx5CHn5i", "bad!code", "@x", ""],
+        "extra_vocab": ["direct", "a b", "é"],
         "decos": ["", "?igshid=1"],
         "qroutes": ["instagram.com/", "instagram.com", "instagram.com/p", "instagram.com/p/BxKRx5CHn5i", "instagram.com/user.name",
                     "instagram.com/reels"],
@@ -92,6 +96,7 @@ SPEC = {
         "alt_hosts": ["telegram.me", "telegram.org", "web.telegram.org"],
         "path_hosts": [("t.me", None, plain), ("telegram.me", 3, plain)],
         "vocab": ["s", "joinchat", "chan", "Chan_1", "123", "12a", "AAAAAE-x_y", "+abc", "addstickers", "share", "iv", ""],
+        "extra_vocab": [],
         "decos": ["", "?embed=1"],
         "qroutes": ["t.me/", "t.me", "t.me/s", "t.me/chan/123", "t.me/s/chan", "t.me/joinchat", "t.me/share/url"],
         "qitems": ["embed=1", "single", "url=http%3A%2F%2Fa.com", "start=1", "before=12", "q="],
@@ -101,8 +106,9 @@ SPEC = {
         "host": "docs.google.com",
         "alt_hosts": ["drive.google.com", "www.google.com", "google.fr", "amp.a.com", "a-com.cdn.ampproject.org"],
         "path_hosts": [("docs.google.com", None, plain), ("www.google.com", 2, plain)],
-        "vocab": ["document", "presentation", "spreadsheets", "forms", "file", "d", "e", "u", "0", "pub", "edit", "export", "ID_1-x",
-                  "url", "amp", "pubhtml", "x.amp.html", ""],
+        "vocab": ["document", "presentation", "spreadsheets", "forms", "d", "e", "u", "0", "pub", "edit", "ID_1-x",
+                  "url", "amp", "x.amp.html", ""],
+        "extra_vocab": ["file", "export", "pubhtml"],
         "decos": ["", "?output=csv&url=http%3A%2F%2Fa.com"],
         "qroutes": ["docs.google.com/", "docs.google.com", "docs.google.com/document/d/ID_1-x", "docs.google.com/spreadsheets/d/e/ID_1-x/pub",
                     "www.google.com/url", "google.fr/url", "a.com/p", "a.com"],
